@@ -746,7 +746,8 @@ func (c *Compiler) writeNode(node, parent *node, recv, v, vsrc string, depth int
 					if ch.ptr || nvPtr {
 						pfx = ""
 					}
-					c.wl("if uvalue, ok := value.(*", typ, "); ok && uvalue != nil {")
+					// A pointer to the field's own type replaces the field, i.e. only when the path ends on it.
+					c.wl("if uvalue, ok := value.(*", typ, "); ok && uvalue != nil && len(path) == ", strconv.Itoa(depth+1), " {")
 					c.wl(nv, " = ", pfx, "uvalue")
 					c.wl("}")
 
